@@ -187,8 +187,11 @@ def main(prop=PROP, direction=("ser",), kinds=KINDS, title="serializers", extra=
         run.add_results(res)
         PP.report_failures(run, res, label)
         shutil.rmtree(PP._STATE.get("workdir", "/nonexistent"), ignore_errors=True)
-    cpp_bounded(run, prop, direction, args)
-    if prop in ("C01", "C02"):
+    import os
+    proof_only = os.environ.get("VK_PROOF_ONLY") == "1"  # experiments only (which leg catches a seeded change): never set by a registered command
+    if not proof_only:
+        cpp_bounded(run, prop, direction, args)
+    if prop in ("C01", "C02") and not proof_only:
         py_bounded(run, prop, direction, args)
     if prop in ("C01", "C02"):
         py_proof(run, prop, args)
